@@ -379,3 +379,48 @@ def _loop_unrolling(repo, ob, failure):
         if got is not None and got != want:
             return {"input": doc, "observed": "%d copies of the body" % got, "expected": "%d copies (the manual unrolling)" % want}
     return None
+
+
+@generator("C13.endpoint.")
+def _connector_endpoints(repo, ob, failure):
+    """line connectors between two rects: a named location is used as given, the free end is the
+    candidate (edge mid-points + corners) of ITS element closest to the other end"""
+    def locs(x, y, w, h):
+        return {"tl": (x, y), "t": (x + w / 2, y), "tr": (x + w, y), "r": (x + w, y + h / 2), "br": (x + w, y + h),
+                "b": (x + w / 2, y + h), "bl": (x, y + h), "l": (x, y + h / 2)}
+    a = (0.0, 0.0, 10.0, 10.0)
+    for bpos in ((30.0, 40.0), (30.0, -3.0), (-40.0, 25.0), (3.0, 50.0), (-35.0, -45.0)):
+        b = (bpos[0], bpos[1], 12.0, 8.0)
+        la, lb = locs(*a), locs(*b)
+        for named in ("r", "tl", "b", "l"):
+            for named_end in (False, True):
+                if not named_end:
+                    p = la[named]
+                    cands = lb
+                    doc_line = '<line id="c" start="#a@%s" end="#b"/>' % named
+                else:
+                    p = lb[named]
+                    cands = la
+                    doc_line = '<line id="c" start="#a" end="#b@%s"/>' % named
+                ds = sorted(((q[0] - p[0]) ** 2 + (q[1] - p[1]) ** 2, k) for k, q in cands.items())
+                if ds[1][0] - ds[0][0] < 1e-6:
+                    continue       # tie: either is acceptable
+                q = cands[ds[0][1]]
+                want = (p + q) if not named_end else (q + p)
+                doc = '<svg><rect id="a" xy="%g %g" wh="%g %g"/><rect id="b" xy="%g %g" wh="%g %g"/>%s</svg>' % (a + b + (doc_line,))
+                r = run_svgdx(repo, doc)
+                if r["rc"] != 0:
+                    continue
+                tree, err = _parse_xml(r["out"])
+                if tree is None:
+                    continue
+                c = [e for e in tree.iter() if e.attrib.get("id") == "c"]
+                if not c:
+                    continue
+                try:
+                    got = tuple(float(c[0].attrib.get(k, "nan")) for k in ("x1", "y1", "x2", "y2"))
+                except ValueError:
+                    continue
+                if any(not abs(u - v) <= 0.002 for u, v in zip(got, want)):
+                    return {"input": doc, "observed": "x1,y1,x2,y2 = %r" % (got,), "expected": "%r" % (want,)}
+    return None
